@@ -114,6 +114,7 @@ template <class T> struct RT;
 template <> struct RT<uint8_t> { typedef uint8_t raw; static const char* name() { return "u8"; } static double maxv() { return 255; } static const bool is_float = false; };
 template <> struct RT<uint16_t> { typedef uint16_t raw; static const char* name() { return "u16"; } static double maxv() { return 65535; } static const bool is_float = false; };
 template <> struct RT<gil::float32_t> { typedef float raw; static const char* name() { return "f32"; } static double maxv() { return 1; } static const bool is_float = true; };
+template <> struct RT<uint64_t> { typedef uint64_t raw; static const char* name() { return "u64"; } static double maxv() { return 18446744073709551615.0; } static const bool is_float = false; };
 template <> struct RT<uint32_t> { typedef uint32_t raw; static const char* name() { return "u32"; } static double maxv() { return 4294967295.0; } static const bool is_float = false; };
 
 inline double to_raw(uint8_t v) { return v; }
@@ -150,6 +151,8 @@ template <class T, class LY> struct H_pix {
     gil_t& ref() { return *reinterpret_cast<gil_t*>(base()); }
     gil_t const& cref() { return *reinterpret_cast<gil_t const*>(base()); }
     void set_variant(int) {}
+    void set_spare(uint64_t) {}
+    static bool has_spare() { return false; }
     static double maxv(int) { return RT<T>::maxv(); }
     void set(int k, double v) { raw r = (raw)v; memcpy(base() + phys<LY>(k) * sizeof(T), &r, sizeof r); }
     double get(int k) { raw r; memcpy(&r, base() + phys<LY>(k) * sizeof(T), sizeof r); return (double)r; }
@@ -191,6 +194,8 @@ template <class T, class CSI, bool Mut> struct H_planar {
     }
     gil_t cref() { return ref(); }
     void set_variant(int) {}
+    void set_spare(uint64_t) {}
+    static bool has_spare() { return false; }
     static double maxv(int) { return RT<T>::maxv(); }
     void set(int k, double v) { raw r = (raw)v; memcpy(chan_addr(k), &r, sizeof r); }
     double get(int k) { raw r; memcpy(&r, chan_addr(k), sizeof r); return (double)r; }
@@ -239,6 +244,15 @@ template <class BF, class LY, unsigned... S> struct H_packed {
     gil_t& ref() { return *reinterpret_cast<gil_t*>(base()); }
     gil_t const& cref() { return *reinterpret_cast<gil_t const*>(base()); }
     void set_variant(int) {}
+    // bits of the bit field that belong to no channel (channels are contiguous from bit 0)
+    static bool has_spare() { return bt::total() < 8 * sizeof(BF); }
+    static uint64_t spare_mask() { return bt::total() >= 64 ? 0 : (~0ull << bt::total()) & (sizeof(BF) == 8 ? ~0ull : ((1ull << (8 * sizeof(BF))) - 1)); }
+    void set_spare(uint64_t pattern) {
+        BF r; memcpy(&r, base(), sizeof r);
+        uint64_t x = ((uint64_t)r & ~spare_mask()) | (pattern & spare_mask());
+        r = (BF)x; memcpy(base(), &r, sizeof r);
+    }
+    BF raw_bits() { BF r; memcpy(&r, base(), sizeof r); return r; }
     static double maxv(int k) { return (double)((1ull << bt::ssize(k)) - 1); }
     void set(int k, double v) {
         BF r; memcpy(&r, base(), sizeof r);
@@ -274,6 +288,20 @@ template <class BF, class LY, bool Mut, unsigned... S> struct H_bits {
     void set_variant(int v) { memcpy(buf, shadow, sizeof buf); start = 64 + ((v % 8) + 8) % 8; }   // callers fill the pixel afterwards
     gil_t ref() { return gil_t(buf + start / 8, start % 8); }
     gil_t cref() { return ref(); }
+    // the bits around the pixel (its neighbours in a row) take a pattern derived from `pattern`
+    static bool has_spare() { return true; }
+    void set_spare(uint64_t pattern) {
+        vh::rng pr(pattern);
+        for (size_t i = 0; i < sizeof buf; ++i) {
+            unsigned char nb = pattern == 0 ? 0 : pattern == ~0ull ? 0xFF : (unsigned char)pr.next();
+            for (unsigned b = 0; b < 8; ++b) {
+                unsigned bit = (unsigned)i * 8 + b;
+                if (bit >= (unsigned)start && bit < start + bt::total()) continue;
+                if ((nb >> b) & 1) buf[i] |= (unsigned char)(1u << b); else buf[i] &= (unsigned char)~(1u << b);
+            }
+        }
+        memcpy(shadow, buf, sizeof buf);
+    }
     static double maxv(int k) { return (double)((1ull << bt::ssize(k)) - 1); }
     void set(int k, double v) {
         uint64_t x = (uint64_t)v;
@@ -365,9 +393,28 @@ template <class SH, class DH> struct pair_check {
     template <class S> void do_construct(S const&, const double*, std::false_type) {}
 
     // light round: assignment + equality
+    // spare bits (bits of a packed pixel's bit field that belong to no channel; the neighbouring bits of a bit-aligned
+    // pixel) in the combinations 0/0, 1/0, 0/1, 1/1 and seeded/seeded: only the named colours are ever judged
+    void spares(int variant) {
+        int m = ((variant % 5) + 5) % 5;
+        uint64_t ps = m == 1 || m == 3 ? ~0ull : m == 4 ? vh::mix(0x5157, (uint64_t)variant) | 1 : 0;
+        uint64_t pd = m == 2 || m == 3 ? ~0ull : m == 4 ? vh::mix(0x7a11, (uint64_t)variant) | 1 : 0;
+        sh.set_spare(ps); dh.set_spare(pd);
+    }
     void light(const double* a, int variant) {
         sh.set_variant(variant); dh.set_variant(variant * 3 + 1);
-        fill(sh, a); fill_junk(dh, a);
+        spares(variant);
+        // equal named colours, whatever else the storage holds: equal
+        fill(sh, a); fill(dh, a);
+        {
+            auto&& s = sh.cref(); auto&& d = dh.ref();
+            g_evals += 4;
+            if (!(d == s)) vh::viol(vh::cat("equal-by-name.", pk), vh::cat("dst == src is false for equal colours ", csi::order(), "=", vec_str<N>(a), " (spare-bit combination ", ((variant % 5) + 5) % 5, ")"));
+            if (d != s) vh::viol(vh::cat("notequal-by-name.", pk), vh::cat("dst != src is true for equal colours ", csi::order(), "=", vec_str<N>(a), " (spare-bit combination ", ((variant % 5) + 5) % 5, ")"));
+            if (!(s == d)) vh::viol(vh::cat("equal-by-name-reversed.", pk), vh::cat("src == dst is false for equal colours ", vec_str<N>(a)));
+            if (!gil::static_equal(s, d)) vh::viol(vh::cat("static_equal-by-name.", pk), vh::cat("static_equal false for equal colours ", vec_str<N>(a)));
+        }
+        fill_junk(dh, a);
         auto&& s = sh.cref(); auto&& d = dh.ref();
         d = s;
         verify("assign", a, "dst = src");
@@ -495,6 +542,13 @@ template <class SH, class DH> struct pair_check {
             heavy(a, variant++); ++ndist;
         }
         if (N > 1) { for (int k = 0; k < N; ++k) a[k] = 0; light(a, variant++); ++ndist; for (int k = 0; k < N; ++k) a[k] = SH::maxv(k); light(a, variant++); ++ndist; }
+        // the top bit of each channel alone, of all channels, and all but the top bit
+        if (!SH::is_float) {
+            for (int c = 0; c <= N + 1; ++c) {
+                for (int k = 0; k < N; ++k) { double tb = (SH::maxv(k) + 1) / 2; a[k] = c == N ? tb : c == N + 1 ? tb - 1 : (k == c ? tb : 0); }
+                heavy(a, variant++); ++ndist;
+            }
+        }
         onehot_visits(variant);
         // seeded colours
         int nr = vh::thorough() ? 256 : 32;
@@ -512,6 +566,16 @@ template <class SH, class DH> struct pair_check {
                 int n = vh::thorough() ? 4096 : 64;
                 for (int i = 0; i < n; ++i) { a[c] = (double)(float)r.unit(); light(a, i); }
                 a[c] = 0; light(a, 0); a[c] = 1; light(a, 1);
+            } else if (mx > 65535) {
+                // wide channels (packed 21, 24, 32 bits): every power of two and its neighbours, from both ends, + seeded values
+                int var = 0;
+                for (double p2 = 1; p2 <= mx; p2 *= 2)
+                    for (int dlt = -1; dlt <= 1; ++dlt) {
+                        double v = p2 + dlt;
+                        if (v >= 0 && v <= mx) { a[c] = v; light(a, var++); ++ndist; a[c] = mx - v; light(a, var++); ++ndist; }
+                    }
+                int n = vh::thorough() ? 4096 : 128;
+                for (int i = 0; i < n; ++i) { a[c] = (double)r.below((uint64_t)mx + 1); light(a, var++); }
             } else if (mx <= 1023 || vh::thorough()) {
                 for (double v = 0; v <= mx; v += 1) { a[c] = v; light(a, (int)v); ++ndist; }
             } else {
@@ -692,7 +756,7 @@ template <class H> struct model_check {
     // construction from channel values: arguments are in memory order
     void channel_ctor(const double* a, std::true_type) {
         double v[N];
-        for (int k = 0; k < N; ++k) v[H::physk(k)] = a[k];     // v[p] goes to memory position p, which holds colour k
+        for (int k = 0; k < N; ++k) v[H::physk(k)] = H::is_pix ? a[k] : std::fmod(a[k], 2147483648.0);     // v[p] goes to memory position p, which holds colour k; packed_pixel(int...) takes ints
         P tmp = from_channels<H, N>::make(v);
         h.construct_from(tmp);
         ++g_evals;
@@ -701,8 +765,49 @@ template <class H> struct model_check {
     }
     void channel_ctor(const double*, std::false_type) {}
 
+    // packed pixels made from a bit-field value (raw buffers, file bytes): only the channel bits count
+    void raw_bits(const double* a, vh::rng& r, std::true_type) {
+        static const uint64_t pats[4] = {0, ~0ull, 0, 0};
+        P px[4]; P out[4]; P out2[4];
+        for (int i = 0; i < 4; ++i) {
+            fill(h, a); h.set_spare(i < 2 ? pats[i] : r.next());
+            new (&px[i]) P(h.raw_bits());
+            auto f = [&](auto kc) {
+                constexpr int K = decltype(kc)::value;
+                ++g_evals;
+                double v = to_raw(gil::semantic_at_c<K>(px[i]));
+                if (v != a[K]) vh::viol(vh::cat("bitfield-ctor.", mn), vh::cat("packed_pixel(bit field): colour ", csi::cname(K), " reads ", v, ", the channel bits hold ", a[K]));
+            };
+            KLoop<0, N>::run(f);
+            h2.set_spare(~(uint64_t)h.raw_bits()); fill_junk(h2, a);
+            memcpy(&out[i], h2.base(), sizeof(P)); memcpy(&out2[i], h2.base(), sizeof(P));
+        }
+        for (int i = 0; i < 4; ++i) for (int j = 0; j < 4; ++j) {
+            g_evals += 2;
+            if (!(px[i] == px[j]) || (px[i] != px[j])) vh::viol(vh::cat("equal-spare-bits.", mn), vh::cat("two pixels with the same colours ", vec_str<N>(a), " whose spare bits differ compare unequal"));
+            if (!gil::static_equal(px[i], px[j])) vh::viol(vh::cat("static_equal-spare-bits.", mn), "static_equal false for equal colours");
+        }
+        // std::copy / copy_pixels / equal_pixels over such pixels: named colours arrive, equality by name
+        std::copy(px, px + 4, out);
+        auto sv = gil::interleaved_view(4, 1, &px[0], 4 * sizeof(P));
+        auto dv = gil::interleaved_view(4, 1, &out2[0], 4 * sizeof(P));
+        gil::copy_pixels(sv, dv);
+        for (int i = 0; i < 4; ++i) {
+            H a1, a2; memcpy(a1.base(), &out[i], sizeof(P)); memcpy(a2.base(), &out2[i], sizeof(P));
+            int bad = 0; g_evals += 2;
+            if (!holds(a1, a, &bad)) vh::viol(vh::cat("std-copy.", mn), vh::cat("colour ", csi::cname(bad), " is ", a1.get(bad), " expected ", a[bad]));
+            if (!holds(a2, a, &bad)) vh::viol(vh::cat("copy_pixels.", mn), vh::cat("colour ", csi::cname(bad), " is ", a2.get(bad), " expected ", a[bad]));
+        }
+        // equal colours, different spare bits in every position: the views are equal
+        for (int i = 0; i < 4; ++i) { H t; memcpy(t.base(), &out2[i], sizeof(P)); t.set_spare(~(uint64_t)h.raw_bits() ^ (i * 0x1111111111111111ull)); memcpy(&out2[i], t.base(), sizeof(P)); }
+        ++g_evals;
+        if (!gil::equal_pixels(sv, dv)) vh::viol(vh::cat("equal_pixels-spare-bits.", mn), vh::cat("equal_pixels false for views whose pixels have the same colours ", vec_str<N>(a), " and different spare bits"));
+    }
+    void raw_bits(const double*, vh::rng&, std::false_type) {}
+
     void round(const double* a, int variant, vh::rng& r) {
         h.set_variant(variant);
+        h.set_spare(variant % 3 == 0 ? 0 : variant % 3 == 1 ? ~0ull : r.next());
         fill(h, a);
         auto&& p = h.ref();
         read_values(p, a, "");
@@ -716,6 +821,7 @@ template <class H> struct model_check {
         if (!gil::static_equal(p, cp) || !(p == cp) || (p != cp)) vh::viol(vh::cat("equal-self.", mn), "p == p is false");
         writes(a, r, std::integral_constant<bool, H::is_mutable>());
         channel_ctor(a, std::integral_constant<bool, H::is_value && (H::is_pix || N > 1)>());
+        raw_bits(a, r, std::integral_constant<bool, H::is_value && !H::is_pix>());
     }
     void run() {
         vh::rng r = vh::case_rng();
@@ -734,6 +840,11 @@ template <class H> struct model_check {
             ++g_evals;
             if ((int)log.a.size() != N || hot != 1) vh::viol(vh::cat("static_for_each1.", mn), vh::cat(log.a.size(), " calls, ", hot, " with the non-zero colour, for ", (int)N, " channels"));
         }
+        if (!H::is_float)
+            for (int c = 0; c <= N + 1; ++c) {
+                for (int k = 0; k < N; ++k) { double tb = (H::maxv(k) + 1) / 2; a[k] = c == N ? tb : c == N + 1 ? H::maxv(k) : (k == c ? tb : 0); }
+                round(a, c + 1, r); ++nd;
+            }
         int nr = vh::thorough() ? 512 : 64;
         for (int i = 0; i < nr; ++i) {
             for (int k = 0; k < N; ++k) a[k] = H::is_float ? (double)(float)r.unit() : (double)r.below((uint64_t)H::maxv(k) + 1);
@@ -1026,7 +1137,7 @@ template <class T, class CSI, class... LY> void planar_access_all() {
 // and whether copy_and_convert_pixels copies or converts.  Expected verdict from the harness's own description of a
 // model: same colour space and, for every colour name, the same channel value type (u8, u16, f32, packed N bits).
 // Heterogeneous packed / bit-aligned models with pairwise distinct widths make a memory-order pairing visible.
-#if C05_PART == 11 || C05_PART == 12
+#if C05_PART == 11 || C05_PART == 12 || C05_PART == 18
 template <int K, unsigned... S> struct nth_size { static constexpr unsigned v() { constexpr unsigned a[] = {S...}; return a[K]; } };
 template <class H> struct chan_info;
 template <class T, class LY> struct chan_info<H_pix<T, LY>> {
@@ -1075,7 +1186,7 @@ template <class A, class... B> void trait_row(const char* group, TL<B...>) {
 }
 template <class... A, class BL> void trait_table(const char* group, TL<A...>, BL b) { using sw = int[]; (void)sw{0, (trait_row<A>(group, b), 0)...}; }
 #endif
-#if C05_PART == 12
+#if C05_PART == 12 || C05_PART == 18
 // copy_and_convert_pixels / color_convert / color_converted_view between models of one colour space: every colour of the
 // destination is channel_convert of the source's colour of the same name (the identity when the channel types agree).
 template <class SH, class DH> void convert_pair(const char* group) {
@@ -1281,6 +1392,32 @@ int main(int argc, char** argv) {
     // assignment / construction / equality / static_* by name where every colour has its own width (and its own position per layout)
     packed_family<uint16_t, 2, 3, 4>::run("rgb", TL<L_rgb, L_bgr>());
     packed_family<uint16_t, 1, 2, 3, 4>::run_dst<L_argb>("rgba", rgba_layouts());
+#elif C05_PART == 14
+    // 64-bit bit fields (channels at bit 32 and above; shifts must happen in the bit field's type)
+    packed_family<uint64_t, 16, 16, 16, 16>::run_dst<L_argb>("rgba", rgba_layouts());
+    packed_family<uint64_t, 21, 21, 21>::run("rgb", TL<L_rgb, L_bgr>());
+#elif C05_PART == 15
+    packed_family<uint64_t, 16, 16, 16, 16>::run_dst<L_bgra>("rgba", rgba_layouts());
+    packed_family<uint64_t, 8, 24, 32>::run("rgb", TL<L_rgb, L_bgr>());
+    packed_family<uint64_t, 12, 12, 12, 12, 12>::run("devicen5", TL<L_dev5, L_dev5r>());
+#elif C05_PART == 16
+    // bit fields with spare bits (rgb555 / rgb444 in 16 bits, rgb888 in 32, gray3 in 8, rgba4442 in 16)
+    packed_family<uint16_t, 5, 5, 5>::run("rgb", TL<L_rgb, L_bgr>());
+    packed_family<uint16_t, 4, 4, 4>::run("rgb", TL<L_rgb, L_bgr>());
+    packed_family<uint8_t, 3>::run("gray", TL<L_gray>());
+#elif C05_PART == 17
+    packed_family<uint32_t, 8, 8, 8>::run("rgb", TL<L_rgb, L_bgr>());
+    packed_family<uint16_t, 4, 4, 4, 2>::run_dst<L_abgr>("rgba", rgba_layouts());
+    packed_family<uint64_t, 10, 10, 10, 10>::run_dst<L_rgba>("rgba", rgba_layouts());
+#elif C05_PART == 18
+    {
+        // 64-bit packed pixels <-> homogeneous pixels and narrower packed pixels
+        typedef TL<H_packed<uint64_t, L_rgba, 16, 16, 16, 16>, H_packed<uint64_t, L_abgr, 16, 16, 16, 16>, H_pix<uint16_t, L_argb>, H_pix<uint8_t, L_bgra>,
+                   H_packed<uint16_t, L_bgra, 4, 4, 4, 4>, H_packed<uint64_t, L_argb, 10, 10, 10, 10>> wide;
+        convert_all("rgba.wide", wide(), wide());
+        typedef TL<H_packed<uint64_t, L_bgr, 8, 24, 32>, H_packed<uint64_t, L_rgb, 21, 21, 21>, H_pix<uint16_t, L_bgr>, H_packed<uint16_t, L_rgb, 5, 5, 5>> wide3;
+        convert_all("rgb.wide", wide3(), wide3());
+    }
 #elif C05_PART == 12
     {
         typedef TL<H_packed<uint16_t, L_rgb, 2, 3, 4>, H_packed<uint16_t, L_bgr, 2, 3, 4>, H_packed<uint16_t, L_rgb, 4, 3, 2>, H_packed<uint16_t, L_bgr, 4, 3, 2>,
